@@ -178,6 +178,11 @@ func (c *uploadContext) prepareUpload(unfiltered ...*lfs.WrappedPointer) []*lfs.
 	// Skip any objects which we've seen or already uploaded, as well
 	// as any which are locked by other users.
 	for _, p := range unfiltered {
+		// Every path is checked against the locks, also those whose
+		// object needs no upload (see below).
+		lockedByThem := c.lockVerifier.LockedByThem(p.Name)
+		c.lockVerifier.LockedByUs(p.Name)
+
 		// object already uploaded in this process, or we've already
 		// seen this OID (see above), skip!
 		if uniqOids.Contains(p.Oid) || c.HasUploaded(p.Oid) || p.Size == 0 {
@@ -191,7 +196,7 @@ func (c *uploadContext) prepareUpload(unfiltered ...*lfs.WrappedPointer) []*lfs.
 		// current committer.
 		var canUpload bool = true
 
-		if c.lockVerifier.LockedByThem(p.Name) {
+		if lockedByThem {
 			// If the verification state is enabled, this failed
 			// locks verification means that the push should fail.
 			//
@@ -202,8 +207,6 @@ func (c *uploadContext) prepareUpload(unfiltered ...*lfs.WrappedPointer) []*lfs.
 			// sent as a warning and the user can upload.
 			canUpload = !c.lockVerifier.Enabled()
 		}
-
-		c.lockVerifier.LockedByUs(p.Name)
 
 		if canUpload {
 			// estimate in meter early (even if it's not going into
